@@ -12,12 +12,12 @@ def plans(ctx):
         return [
             # straight-line scripts over the rich data pools (limit-length and over-length values, ~ names, empty ident,
             # ill-shaped passwords), two arrival orders, all protocol types
-            R.Plan("d1", "S_t1a", script="ScriptData1", rich_sel="RichData", emit_mod=12, max_pw=1),
+            R.Plan("d1", "S_t1a", script="ScriptData1", rich_sel="RichData", emit_mod=30, max_pw=1),
             R.Plan("d2", "S_t1b", script="ScriptData2", rich_sel="RichData", emit_mod=40, max_pw=1),
             R.Plan("d3", "S_t1d", script="ScriptData3", rich_sel="RichData", emit_mod=2, max_pw=1),
             # free environment: every arrival order of the data items, passwords (well- and ill-shaped), hurry-up
-            R.Plan("t1b", "S_t1b", emit_mod=50, max_inst=1, max_pw=2, rich_sel="RichModes"),
-            R.Plan("q1", "S_q1", emit_mod=80, max_inst=1, max_pw=2)]
+            R.Plan("t1b", "S_t1b", emit_mod=90, max_inst=1, max_pw=2, rich_sel="RichModes"),
+            R.Plan("q1", "S_q1", emit_mod=160, max_inst=1, max_pw=2)]
     return [R.Plan("d1", "S_t1a", script="ScriptData1", rich_sel="RichData", emit_mod=2, max_pw=1),
             R.Plan("d2", "S_t1b", script="ScriptData2", rich_sel="RichData", emit_mod=6, max_pw=1),
             R.Plan("d3", "S_t1d", script="ScriptData3", rich_sel="RichData", emit_mod=1, max_pw=1),
